@@ -6,6 +6,7 @@ import (
 	"sync"
 	"time"
 
+	"github.com/gogo/protobuf/proto"
 	"github.com/pingcap/kvproto/pkg/pdpb"
 	"github.com/tikv/pd/server/core"
 	"github.com/tikv/pd/server/schedule"
@@ -312,98 +313,8 @@ func (w *world) observe(ci *callInfo) {
 	}
 	prev := w.running
 
-	// --- commands sent during the call
-	var msgs []*pdpb.RegionHeartbeatResponse
-	for m := w.hb.VerifTryRecv(); m != nil; m = w.hb.VerifTryRecv() {
-		msgs = append(msgs, m)
-	}
-	perRegion := map[uint64]int{}
-	for _, m := range msgs {
-		perRegion[m.GetRegionId()]++
-	}
-	for _, m := range msgs {
-		w.seq++
-		kind := cmdKind(m)
-		r.Count("command_"+kind, 1)
-		g := w.regs[m.GetRegionId()]
-		if g == nil {
-			report("command-for-unknown-region:"+ci.name, fmt.Sprintf("%s sent a %s command for region %d which does not exist", ci.name, kind, m.GetRegionId()), w.phase, 0,
-				func() map[string]interface{} { return map[string]interface{}{"command": m.String(), "call": ci.name} })
-			continue
-		}
-		t := cur[g.id]
-		uncertain := false
-		if t == nil {
-			t = prev[g.id]
-			uncertain = true
-		}
-		if ci.push && (prev[g.id] != cur[g.id] || perRegion[g.id] > 1) {
-			uncertain = true
-		}
-		if ci.pair && cur[g.id] == nil && prev[g.id] != nil && g == ci.g {
-			// two concurrent dispatches of ONE region: nothing was admitted for it during the call, so
-			// every command for it was sent for the operator that was running
-			uncertain = false
-		}
-		if t != nil && !commandFits(m, t.op) {
-			uncertain = true
-			r.Count("attribution_command_fits_no_step", 1)
-		}
-		if uncertain {
-			r.Count("attribution_uncertain", 1)
-			for _, o := range g.ops {
-				o.tainted = true
-			}
-		}
-		// "every command sent for it is addressed to the region's current leader and carries the region's
-		// current epoch": the region as pd knows it at send time (the view did not change during the call)
-		view := g.view
-		if ci.hbView != nil && ci.g == g {
-			view = ci.hbView
-		}
-		alt := w.altView(g)
-		if view == nil {
-			view = alt
-		}
-		if view == nil {
-			report("command-for-region-unknown-to-pd:"+ci.name, fmt.Sprintf("%s sent a %s command for region %d which pd's cache does not hold", ci.name, kind, g.id), w.phase, 0,
-				func() map[string]interface{} { return map[string]interface{}{"command": m.String(), "call": ci.name} })
-			continue
-		}
-		e, ve := m.GetRegionEpoch(), view.GetRegionEpoch()
-		bad := headerMatches(m, view)
-		if bad != "" && alt != nil && headerMatches(m, alt) == "" {
-			bad = "" // stamped from the view the cache held earlier during this call
-			r.Count("command_stamped_from_view_before_inside_update", 1)
-		}
-		if bad == "" && !g.dirty && !g.dead && alt == nil {
-			// pd's view is the store's state: then the command must be acceptable to the store's routing checks
-			if mm := g.sim.HeaderMismatch(m); mm != "" {
-				r.Inconclusive("harness: view and simulator disagree although in sync: %s", mm)
-			}
-		}
-		g.logf("#%d PD sends %s (op%d) epoch %s to peer %d@store%d during %s", w.evNo, kind, opID(t), epochStr(e), m.GetTargetPeer().GetId(), m.GetTargetPeer().GetStoreId(), ci.name)
-		if bad != "" {
-			tt, gg, mm := t, g, m
-			wit := func() map[string]interface{} {
-				x := map[string]interface{}{"command": mm.String(), "call": ci.name, "region_at_pd": fmt.Sprintf("%v leader=%v", view.GetMeta(), view.GetLeader()), "region_history": append([]string(nil), gg.log...)}
-				if tt != nil {
-					return w.opWitness(tt, x)
-				}
-				return x
-			}
-			size := len(g.log)
-			if t != nil {
-				size = len(g.log) - t.logAt
-			}
-			report("command-header-mismatch:"+bad+":"+kind, fmt.Sprintf("command %s sent during %s carries %s %v / %v but the region is at %s with leader %v",
-				kind, ci.name, bad, epochStr(e), m.GetTargetPeer(), epochStr(ve), view.GetLeader()), w.phase, size, wit)
-		}
-		g.inbox = append(g.inbox, &cmd{m: m, t: t, seq: w.seq, kind: kind})
-		if len(g.inbox) > 12 { // the oldest in-flight commands get lost
-			g.inbox = g.inbox[1:]
-		}
-	}
+	// --- commands sent during the call: they stay in the stream until the store side reads them
+	w.noteSent(ci, cur, prev)
 
 	// --- statuses
 	for _, t := range w.live {
@@ -961,5 +872,183 @@ var maxima = map[string]int64{}
 func noteMax(name string, v int64) {
 	if v > maxima[name] {
 		maxima[name] = v
+	}
+}
+
+// sentCtx is what the monitor knew when a command was put on the stream: it is judged against this
+// when the store side takes it off the stream, which may be several calls later.
+type sentCtx struct {
+	ci           *callInfo
+	callNo       int
+	views        map[uint64]*core.RegionInfo
+	altG         *reg
+	altView      *core.RegionInfo
+	cur, prev    map[uint64]*opTrack
+	expectRegion uint64
+	immediate    bool
+	queuedWith   int
+}
+
+func (sc *sentCtx) altFor(g *reg) *core.RegionInfo {
+	if sc.altG == g {
+		return sc.altView
+	}
+	return nil
+}
+
+// noteSent books the commands the call has put on the stream (counted through MsgLength: nothing is
+// read yet) and reads the stream when enough of them are queued (at once in the default mode).
+func (w *world) noteSent(ci *callInfo, cur, prev map[uint64]*opTrack) {
+	n := w.hb.MsgLength() - len(w.queued)
+	if n > 0 {
+		sc := &sentCtx{ci: ci, callNo: w.callNo, views: map[uint64]*core.RegionInfo{}, cur: cur, prev: prev, immediate: w.lazy == 0}
+		for _, id := range w.rids {
+			sc.views[id] = w.regs[id].view
+		}
+		if ci.hbView != nil && ci.g != nil {
+			sc.views[ci.g.id] = ci.hbView
+		}
+		if w.inj != nil && w.inj.done {
+			sc.altG, sc.altView = w.inj.g, w.inj.before
+		}
+		if ci.g != nil && (ci.hbView != nil || ci.pair || ci.name == "Dispatch(push)") {
+			if t := cur[ci.g.id]; t != nil && prev[ci.g.id] == t && t.op.Status() == operator.STARTED {
+				sc.expectRegion = ci.g.id
+			}
+		}
+		for i := 0; i < n; i++ {
+			w.queued = append(w.queued, sc)
+		}
+	}
+	if len(w.queued) > 0 && (w.lazy == 0 || len(w.queued) >= w.lazy) {
+		w.readStream()
+	}
+}
+
+// readStream: the store side takes everything off the stream; every command is judged as a value now.
+func (w *world) readStream() {
+	r := w.r
+	queued := w.queued
+	w.queued = nil
+	var msgs []*pdpb.RegionHeartbeatResponse
+	for m := w.hb.VerifTryRecv(); m != nil; m = w.hb.VerifTryRecv() {
+		msgs = append(msgs, m)
+	}
+	if len(msgs) != len(queued) {
+		r.Inconclusive("harness: %d commands on the stream, %d expected", len(msgs), len(queued))
+		return
+	}
+	if len(msgs) > 1 {
+		r.Count("stream_reads_with_several_commands_queued", 1)
+	}
+	perCallRegion := map[[2]uint64]int{}
+	for i, m := range msgs {
+		perCallRegion[[2]uint64{uint64(queued[i].callNo), m.GetRegionId()}]++
+	}
+	for i, m := range msgs {
+		sc := queued[i]
+		sc.queuedWith = len(msgs)
+		perRegion := map[uint64]int{m.GetRegionId(): perCallRegion[[2]uint64{uint64(sc.callNo), m.GetRegionId()}]}
+		w.judgeMessage(m, sc, perRegion)
+	}
+}
+
+func (w *world) judgeMessage(m *pdpb.RegionHeartbeatResponse, sc *sentCtx, perRegion map[uint64]int) {
+	r := w.r
+	for range []int{0} {
+		w.seq++
+		kind := cmdKind(m)
+		r.Count("command_"+kind, 1)
+		g := w.regs[m.GetRegionId()]
+		if g == nil {
+			report("command-for-unknown-region:"+sc.ci.name, fmt.Sprintf("%s sent a %s command for region %d which does not exist", sc.ci.name, kind, m.GetRegionId()), w.phase, 0,
+				func() map[string]interface{} {
+					return map[string]interface{}{"command": m.String(), "call": sc.ci.name}
+				})
+			continue
+		}
+		if sc.expectRegion != 0 && m.GetRegionId() != sc.expectRegion {
+			// the call was a Dispatch for one region whose operator kept running: nothing but that operator's
+			// command can have been sent
+			mm := m
+			report("command-for-wrong-region:"+kind, fmt.Sprintf("%s for region %d (operator still running) produced a %s command that names region %d", sc.ci.name, sc.expectRegion, kind, m.GetRegionId()),
+				w.phase, 0, func() map[string]interface{} {
+					return map[string]interface{}{"command": mm.String(), "call": sc.ci.name, "dispatched_region": sc.expectRegion, "commands_queued_when_read": sc.queuedWith}
+				})
+		}
+		t := sc.cur[g.id]
+		uncertain := false
+		if t == nil {
+			t = sc.prev[g.id]
+			uncertain = true
+		}
+		if sc.ci.push && (sc.prev[g.id] != sc.cur[g.id] || perRegion[g.id] > 1) {
+			uncertain = true
+		}
+		if sc.ci.pair && sc.cur[g.id] == nil && sc.prev[g.id] != nil && g == sc.ci.g {
+			// two concurrent dispatches of ONE region: nothing was admitted for it during the call, so
+			// every command for it was sent for the operator that was running
+			uncertain = false
+		}
+		if t != nil && !commandFits(m, t.op) {
+			uncertain = true
+			r.Count("attribution_command_fits_no_step", 1)
+		}
+		if uncertain {
+			r.Count("attribution_uncertain", 1)
+			for _, o := range g.ops {
+				o.tainted = true
+			}
+		}
+		// "every command sent for it is addressed to the region's current leader and carries the region's
+		// current epoch": the region as pd knows it at send time (the view did not change during the call)
+		view := sc.views[g.id]
+		if sc.ci.hbView != nil && sc.ci.g == g {
+			view = sc.ci.hbView
+		}
+		alt := sc.altFor(g)
+		if view == nil {
+			view = alt
+		}
+		if view == nil {
+			report("command-for-region-unknown-to-pd:"+sc.ci.name, fmt.Sprintf("%s sent a %s command for region %d which pd's cache does not hold", sc.ci.name, kind, g.id), w.phase, 0,
+				func() map[string]interface{} {
+					return map[string]interface{}{"command": m.String(), "call": sc.ci.name}
+				})
+			continue
+		}
+		e, ve := m.GetRegionEpoch(), view.GetRegionEpoch()
+		bad := headerMatches(m, view)
+		if bad != "" && alt != nil && headerMatches(m, alt) == "" {
+			bad = "" // stamped from the view the cache held earlier during this call
+			r.Count("command_stamped_from_view_before_inside_update", 1)
+		}
+		if bad == "" && sc.immediate && !g.dirty && !g.dead && alt == nil {
+			// pd's view is the store's state: then the command must be acceptable to the store's routing checks
+			if mm := g.sim.HeaderMismatch(m); mm != "" {
+				r.Inconclusive("harness: view and simulator disagree although in sync: %s", mm)
+			}
+		}
+		g.logf("#%d PD sends %s (op%d) epoch %s to peer %d@store%d during %s", w.evNo, kind, opID(t), epochStr(e), m.GetTargetPeer().GetId(), m.GetTargetPeer().GetStoreId(), sc.ci.name)
+		if bad != "" {
+			tt, gg, mm := t, g, m
+			wit := func() map[string]interface{} {
+				x := map[string]interface{}{"command": mm.String(), "call": sc.ci.name, "region_at_pd": fmt.Sprintf("%v leader=%v", view.GetMeta(), view.GetLeader()), "region_history": append([]string(nil), gg.log...)}
+				if tt != nil {
+					return w.opWitness(tt, x)
+				}
+				return x
+			}
+			size := len(g.log)
+			if t != nil {
+				size = len(g.log) - t.logAt
+			}
+			report("command-header-mismatch:"+bad+":"+kind, fmt.Sprintf("command %s sent during %s carries %s %v / %v but the region is at %s with leader %v",
+				kind, sc.ci.name, bad, epochStr(e), m.GetTargetPeer(), epochStr(ve), view.GetLeader()), w.phase, size, wit)
+		}
+		g.inbox = append(g.inbox, &cmd{m: m, snap: proto.Clone(m).(*pdpb.RegionHeartbeatResponse), t: t, seq: w.seq, kind: kind})
+		if len(g.inbox) > 12 { // the oldest in-flight commands get lost
+			g.inbox = g.inbox[1:]
+		}
 	}
 }
